@@ -47,6 +47,9 @@ func (p *reporter) violation(sig string, mk func() (what string, witness any)) {
 type caseID struct {
 	Layer int   `json:"layer"`
 	Seed  int64 `json:"case_seed"`
+	// Restore (layer 2): the table is first restored through Engine.Restore from a backup stream
+	// whose final marker carries a leader index, so that its log starts with restore batches.
+	Restore bool `json:"restore,omitempty"`
 }
 
 type witness struct {
